@@ -256,6 +256,15 @@ def _grid_argmin(v):
     return a[1], list(g[2]), i[2][0]
 
 
+def _positive_sigmas(d):
+    """sign of k*sigma for one of the two standard deviations (positive on the statement's domain)"""
+    if isinstance(d, Form) and len(d.terms) == 1:
+        (m, c), = d.terms.items()
+        if c[1] == 0 and len(m) == 1 and m[0][1] == 1 and m[0][0][0] == "sym" and m[0][0][1].split(".")[-1] in ("s0", "s1"):
+            return 1 if c[0] > 0 else -1
+    return None
+
+
 def _equal_sigma_shortcuts(ctx, fi, it, rets, mu0, mu1, s0, s1):
     """the statement allows one closed form besides the grid search: the midpoint for EQUAL sigmas.  A return of (mu0+mu1)/2 is accepted
     under an exact equality test of the two sigmas (or a purely relative one); a test with an ABSOLUTE tolerance (numpy.isclose's
@@ -325,6 +334,7 @@ def rule_error_probabilities(ctx):
     fi = pkg.func("ook.THRESHOLD_EST")
     it = Interp(pkg, param_classes={"eye_obj": "eye"})
     it.keep_cond_forms = True
+    it.domain_sign = _positive_sigmas             # "for all s0, s1 > 0"
     outs = it.run(fi)
     rets = _equal_sigma_shortcuts(ctx, fi, it, [o for o in outs if o.kind == "return"], mu0, mu1, s0, s1)
     ga = _grid_argmin(rets[0].value) if len(rets) == 1 else None
@@ -472,6 +482,23 @@ def rule_error_probabilities(ctx):
             ctx.check("C13.3", ok, fi, rets[0].node, case, "M/(2(M-1)) * min over the grid of the hard-decision symbol error", "kernel differs from the PPM hard-decision formula")
         else:
             _check_soft(ctx, fi, it, v, rets[0].node, case, on - off, sv[0], sv[1], M, M / (2 * (M - 1)))
+        if dec == "soft":
+            continue
+        # an explicit relative threshold t is the level t*mu_ON + (1-t)*mu_OFF between the two received levels of the model
+        ass2 = dict(ass)
+        ass2["threshold"] = "notnone"
+        it2 = Interp(pkg, assumptions=ass2)
+        rets2 = [o for o in it2.run(fi) if o.kind == "return"]
+        case2 = case[:-1] + ", threshold given]"
+        if len(rets2) != 1 or not isinstance(rets2[0].value, Form):
+            ctx.unknown("C13.3", fi, fi.node, case2, f"{len(rets2)} return paths")
+            continue
+        t_ = S("threshold")
+        r_abs = t_ * on + (1 - t_) * off
+        want2 = ook_pe(off, on, sv[0], sv[1], r_abs) if modn == "ook" else (M / (2 * (M - 1))) * ppm_hard(off, on, sv[0], sv[1], r_abs, M)
+        ctx.check("C13.3", rets2[0].value == want2, fi, rets2[0].node, case2, "error probability at threshold*mu_ON + (1-threshold)*mu_OFF",
+                  "with an explicit threshold the error integral is not evaluated at t*mu_ON + (1-t)*mu_OFF (the point between the two received levels): for a finite extinction ratio "
+                  "the result is not the two-Gaussian error of the receiver model at the requested threshold")
 
 
 def _is_grid_minimum(ctx, it, v, fac, objective, grid_rec, off, on):
@@ -590,6 +617,8 @@ def rule_device_counterparts(ctx):
         ctx.unknown("C13.6", fi, fi.node, "PD thermal draw", "not found")
     fe = pkg.func("devices.EDFA")
     it = Interp(pkg, assumptions={"BW": None, "input.noise": "none", "input.n_pol": 2}, param_classes={"input": "optical_signal"})
+    from .c10 import _gain_at_least_one
+    it.domain_sign = _gain_at_least_one          # G in [0, 40] dB
     it.run(fe)
     pa = it.final_env.get("P_ase") if it.final_env else None
     if not isinstance(pa, Form):
